@@ -48,79 +48,15 @@ def check(cx):
             if e.data['name'] not in allowed_writers.get(b, set()):
                 r1.violation('%s|registry-%s' % (b, e.data['name']), 'the user registry is changed (%s) in %s' % (e.data['name'], b),
                              loc=cx.loc(e.node))
-    callers = {'add_user': [], 'remove_user': []}
-    for fn, e in census:
-        if e.kind == 'call' and e.data.get('local') and e.data['callee'].endswith('VolatileState::add_user'):
-            callers['add_user'].append((fn, e))
-        if e.kind == 'call' and e.data.get('local') and e.data['callee'].endswith('VolatileState::remove_user'):
-            callers['remove_user'].append((fn, e))
-    for nm, want in (('add_user', 'authenticate'), ('remove_user', 'remove_user')):
-        r1.instance('VolatileState::%s callers: %s' % (nm, ','.join(base_fn(f) for f, _ in callers[nm])))
-        for fn, e in callers[nm]:
-            if base_fn(fn) != want:
-                r1.violation('%s|calls-%s' % (base_fn(fn), nm), 'VolatileState::%s is called from %s' % (nm, base_fn(fn)), loc=cx.loc(e.node))
-        if not callers[nm]:
-            r1.violation('nobody|calls-%s' % nm, 'VolatileState::%s is never called' % nm, loc=nm)
+    rule_registry_callers(cx, r1)
 
     # ---------------------------------------------------------------- R2.2
     r2 = cx.rule('R2.2', 'check-and-insert under one write guard', floor=2, kind='required-guard')
-    fa = cx.fn('authenticate')
-    wa = cx.walk(fa, args=[SELF, CONN], key='c02')
-    fnick = cx.fn('process_nick')
-    NEW = P('nick')
-    wn = cx.walk(fnick, args=[SELF, CONN, NEW, P('msg')], key='c02')
-    sites = []
-    for e in wa.events:
-        if is_call(e, 'add_user') and e.data.get('local'):
-            sites.append(('authenticate', wa, e, e.data['args'][1]))
-    for e, x in effects(wn, prog):
-        if x['op'] == 'insert' and x['place'] == USERS:
-            sites.append(('process_nick', wn, e, x['args'][0]))
-    for nm, w, e, key in sites:
-        r2.instance('%s: insert of %s' % (nm, show_term(key)))
-        free = Not(has(USERS, key))
-        ok, m = entails(e.pc, free)
-        wg = [g for g in e.guards if g[0] == 'write']
-        if not ok:
-            r2.violation('%s|insert-without-check' % nm, 'a user is inserted under %s without checking that the nick is free' % show_term(key),
-                         loc=cx.loc(e.node))
-            continue
-        if not wg:
-            r2.violation('%s|insert-without-write-guard' % nm, 'registry insert outside a write-guard region', loc=cx.loc(e.node))
-            continue
-        q = [x for x in w.events if x.kind == 'query' and x.data['coll'] == USERS and x.data['key'] == key
-             and wg[0] in x.guards and x.seq < e.seq]
-        if not q:
-            r2.violation('%s|check-outside-guard' % nm, 'the "nick is free" check and the insert are not under the same write-guard region '
-                         '(another connection can take the nick in between)', loc=cx.loc(e.node))
+    wa, fa = rule_insert_checked(cx, r2)
 
     # ---------------------------------------------------------------- R2.3
     r3 = cx.rule('R2.3', 'authenticated => registered under own nick', floor=2, kind='typestate')
-    AUTH_PLACE = ('field', USTATE, 'authenticated')
-    becomes = []
-    for e in wa.events:
-        if e.kind == 'assign' and not e.data.get('init') and e.data['lhs'] == AUTH_PLACE:
-            becomes.append(And(e.pc, sym.as_formula(e.data['rhs'])))
-            r3.instance('authenticated := %s' % show(sym.as_formula(e.data['rhs']))[:60])
-    done = []
-    for e in wa.events:
-        if is_call(e, 'add_user') and e.data.get('local') and e.data['args'][1] == CONN_NICK:
-            done.append(e.pc)
-        if is_call(e, 'store') and e.data['args'][0] == ('field', CONN, 'quit') and e.data['args'][1] == ('lit', 1):
-            done.append(e.pc)
-    # a later reset of the flag also restores the typestate
-    first_true = min([e.seq for e in wa.events if e.kind == 'assign' and e.data.get('lhs') == AUTH_PLACE] or [0])
-    for e in wa.events:
-        if e.kind == 'assign' and e.data.get('lhs') == AUTH_PLACE and sym.as_formula(e.data['rhs']) == F and e.seq > first_true:
-            done.append(e.pc)
-    if not becomes:
-        raise AnchorLost('authenticate(): assignment to authenticated not found')
-    ok, m = entails(Or(*becomes), Or(*done))
-    r3.instance('every path that sets authenticated registers the user, resets the flag or ends the session')
-    if not ok:
-        r3.violation('authenticate|authenticated-without-user', 'authenticate() can return with authenticated == true although no user was '
-                     'registered for this connection (nick taken in the meantime): the connection is then treated as the owner of a '
-                     'foreign nick (%s)' % model_str(m), loc=fa)
+    rule_auth_implies_registered(cx, r3)
 
     # ---------------------------------------------------------------- R2.4
     r4 = cx.rule('R2.4', 'user mutations keyed by own nick', floor=13, kind='provenance')
@@ -210,3 +146,90 @@ def check(cx):
                     r6.violation('%s|unowned-nick-effect|%s(%s)|under=%s' % (base_fn(fn), x['op'], argk, guard_summary(e.pc)), '%s acts on the user registered under the '
                                  'connection\'s nick without requiring that this connection registered it (an unregistered connection that '
                                  'merely named the nick changes/removes the real owner)' % desc, loc=pg.loc(e.node), config=cfg)
+
+
+def rule_registry_callers(cx, r1):
+    """the counting registry functions are called only from registration and teardown (shared: C02 R2.1, C19)"""
+    census = cx_census(cx)
+    callers = {'add_user': [], 'remove_user': []}
+    for fn, e in census:
+        if e.kind == 'call' and e.data.get('local') and e.data['callee'].endswith('VolatileState::add_user'):
+            callers['add_user'].append((fn, e))
+        if e.kind == 'call' and e.data.get('local') and e.data['callee'].endswith('VolatileState::remove_user'):
+            callers['remove_user'].append((fn, e))
+    for nm, want in (('add_user', 'authenticate'), ('remove_user', 'remove_user')):
+        r1.instance('VolatileState::%s callers: %s' % (nm, ','.join(base_fn(f) for f, _ in callers[nm])))
+        for fn, e in callers[nm]:
+            if base_fn(fn) != want:
+                r1.violation('%s|calls-%s' % (base_fn(fn), nm), 'VolatileState::%s is called from %s' % (nm, base_fn(fn)), loc=cx.loc(e.node))
+        if not callers[nm]:
+            r1.violation('nobody|calls-%s' % nm, 'VolatileState::%s is never called' % nm, loc=nm)
+
+
+
+def rule_insert_checked(cx, rule):
+    """every registry insert is dominated by "key free", checked under the same write guard (shared: C02 R2.2, C18)"""
+    prog = cx.prog
+    fa = cx.fn('authenticate')
+    wa = cx.walk(fa, args=[SELF, CONN], key='c02')
+    fnick = cx.fn('process_nick')
+    NEW = P('nick')
+    wn = cx.walk(fnick, args=[SELF, CONN, NEW, P('msg')], key='c02')
+    sites = []
+    for e in wa.events:
+        if is_call(e, 'add_user') and e.data.get('local'):
+            sites.append(('authenticate', wa, e, e.data['args'][1]))
+    for e, x in effects(wn, prog):
+        if x['op'] == 'insert' and x['place'] == USERS:
+            sites.append(('process_nick', wn, e, x['args'][0]))
+    for nm, w, e, key in sites:
+        rule.instance('%s: insert of %s' % (nm, show_term(key)))
+        free = Not(has(USERS, key))
+        ok, m = entails(e.pc, free)
+        wg = [g for g in e.guards if g[0] == 'write']
+        if not ok:
+            rule.violation('%s|insert-without-check' % nm, 'a user is inserted under %s without checking that the nick is free' % show_term(key),
+                         loc=cx.loc(e.node))
+            continue
+        if not wg:
+            rule.violation('%s|insert-without-write-guard' % nm, 'registry insert outside a write-guard region', loc=cx.loc(e.node))
+            continue
+        q = [x for x in w.events if x.kind == 'query' and x.data['coll'] == USERS and x.data['key'] == key
+             and wg[0] in x.guards and x.seq < e.seq]
+        if not q:
+            rule.violation('%s|check-outside-guard' % nm, 'the "nick is free" check and the insert are not under the same write-guard region '
+                         '(another connection can take the nick in between)', loc=cx.loc(e.node))
+
+    return wa, fa
+
+
+def rule_auth_implies_registered(cx, rule):
+    """authenticated == true at the end of authenticate() implies the user was registered (shared: C02 R2.3, C03, C18)"""
+    fa = cx.fn('authenticate')
+    wa = cx.walk(fa, args=[SELF, CONN], key='c02')
+    AUTH_PLACE = ('field', USTATE, 'authenticated')
+    becomes = []
+    for e in wa.events:
+        if e.kind == 'assign' and not e.data.get('init') and e.data['lhs'] == AUTH_PLACE:
+            becomes.append(And(e.pc, sym.as_formula(e.data['rhs'])))
+            rule.instance('authenticated := %s' % show(sym.as_formula(e.data['rhs']))[:60])
+    done = []
+    for e in wa.events:
+        if is_call(e, 'add_user') and e.data.get('local') and e.data['args'][1] == CONN_NICK:
+            done.append(e.pc)
+        if is_call(e, 'store') and e.data['args'][0] == ('field', CONN, 'quit') and e.data['args'][1] == ('lit', 1):
+            done.append(e.pc)
+    # a later reset of the flag also restores the typestate
+    first_true = min([e.seq for e in wa.events if e.kind == 'assign' and e.data.get('lhs') == AUTH_PLACE] or [0])
+    for e in wa.events:
+        if e.kind == 'assign' and e.data.get('lhs') == AUTH_PLACE and sym.as_formula(e.data['rhs']) == F and e.seq > first_true:
+            done.append(e.pc)
+    if not becomes:
+        raise AnchorLost('authenticate(): assignment to authenticated not found')
+    ok, m = entails(Or(*becomes), Or(*done))
+    rule.instance('every path that sets authenticated registers the user, resets the flag or ends the session')
+    if not ok:
+        rule.violation('authenticate|authenticated-without-user', 'authenticate() can return with authenticated == true although no user was '
+                     'registered for this connection (nick taken in the meantime): the connection is then treated as the owner of a '
+                     'foreign nick (%s)' % model_str(m), loc=fa)
+
